@@ -106,8 +106,11 @@ def canary(budget, with_e1=False):
     r1 = discharge([x > 0], x * x > x, budget=5)                      # false for 0 < x <= 1
     r2 = discharge([Quant('k', z3.IntVal(0), i, lambda k: z3.Select(A, k) >= 0)], z3.Select(A, i) >= 0, budget=5)   # index i not covered
     r3 = discharge([x > 0], x * x + 1 > x, budget=5)                  # true
-    ok = r1['verdict'] == 'failed' and r2['verdict'] == 'failed' and r3['verdict'] == 'proved'
-    info = {'false_nonlinear': r1['verdict'], 'false_quantified': r2['verdict'], 'true_nonlinear': r3['verdict']}
+    # true, but only by using the quantified hypothesis away from index 0 (guards the model-based refutation tiers)
+    B = z3.Array('cB', z3.IntSort(), z3.RealSort()); j = z3.Int('cj')
+    r4 = discharge([Quant('k', z3.IntVal(0), i + 1, lambda k: z3.Select(A, k) * z3.Select(A, k) == z3.Select(B, k)), i >= 3, j >= 1, j <= i], z3.Select(B, j) >= 0, budget=5)
+    ok = r1['verdict'] == 'failed' and r2['verdict'] == 'failed' and r3['verdict'] == 'proved' and r4['verdict'] == 'proved'
+    info = {'false_nonlinear': r1['verdict'], 'false_quantified': r2['verdict'], 'true_nonlinear': r3['verdict'], 'true_quantified_nonlinear': r4['verdict']}
     if with_e1:
         import tempfile, subprocess, shutil
         wd = tempfile.mkdtemp(prefix='lpv_canary_', dir='/var/tmp')
